@@ -372,7 +372,10 @@ double cmi_random_nor_not_hot(int64_t i_cand_x)
     /* Alias sample to find out which overhang area */
     int64_t i_cand_y = zig_sample63();
     uint8_t jdx = i_cand_y & 0xff;
-    jdx = (i_cand_x >= nor_zig_i_prob[jdx]) ? nor_zig_alias[jdx] : jdx;
+    /* A fresh draw for the alias coin, as in the exponential sampler: i_cand_x
+     * is the X position inside the chosen overhang and must stay independent
+     * of how that overhang was chosen */
+    jdx = (zig_sample63() >= nor_zig_i_prob[jdx]) ? nor_zig_alias[jdx] : jdx;
     if (jdx > nor_zig_inflection) {
         /* Convex overhang */
         for (;;) {
